@@ -424,7 +424,8 @@ def scn_hash_int(c):
 def scn_hash_string(c):
     it = new_interp()
     f = fn(it, 'emsarray.operations.cache', 'hash_string')
-    for s in ['', 'lat', 'x_centre', 'Mesh2_face_nodes', 'température', 'a' * 300]:
+    # names that differ only in their Unicode composition are different names (xarray keeps them apart): the bytes are those of the string as given
+    for s in ['', 'lat', 'x_centre', 'Mesh2_face_nodes', 'température', 'tempe\u0301rature', 'lon_\u212b', 'lon_\u00c5', '\ufb01eld', 'a' * 300]:
         h = HashModel()
         expect_ok(c, 'hash_string returns', lambda: call(it, f, h, s))
         c.check(f'hash_string({s[:12]!r}..): length prefix then UTF-8 bytes',
